@@ -175,7 +175,7 @@ func runFaultPlan(t *Trace, faults []FaultSpec, st *Stats) (out faultOutcome, v 
 	finalized := false
 	checkStored := func(where string) *Violation {
 		// every block acknowledged so far is still readable with exact bytes
-		if ss != nil || cfg.Store == "sw" {
+		if ss != nil || cfg.Store == "sw" || cfg.Store == "sw-nt" {
 			for _, b := range m.Secs {
 				ok, herr := has(b.Cid)
 				if herr != nil {
@@ -223,7 +223,7 @@ func runFaultPlan(t *Trace, faults []FaultSpec, st *Stats) (out faultOutcome, v 
 				if herr == nil && ok {
 					return viol("fault/failed-put-reported/has", "op #%d Put(%s) failed (%v) but Has reports the block as stored", i, b.Spec, perr)
 				}
-				if ss == nil && cfg.Store != "sw" && herr == nil {
+				if ss == nil && cfg.Store != "sw" && cfg.Store != "sw-nt" && herr == nil {
 					if data, gerr := store.Get(b.Cid); gerr == nil {
 						return viol("fault/failed-put-reported/get", "op #%d Put(%s) failed (%v) but Get returns %d bytes", i, b.Spec, perr, len(data))
 					}
@@ -525,7 +525,7 @@ func faultFreeWrites(t *Trace) (lens []int, ops []int) {
 
 func GenC16(seed uint64, run int) *Trace {
 	r := RunRng(seed, "C16", "fault", run)
-	store := Pick(r, []string{"rw", "rw", "sc", "sc", "sw", "ss", "ds"})
+	store := Pick(r, []string{"rw", "rw", "sc", "sc", "sw", "ss", "ds", "sc-nt", "sw-nt"})
 	cfg := GenConfig(r, store)
 	if store == "ss" || store == "ds" {
 		cfg.CarV1 = false
